@@ -24,6 +24,8 @@ CONSTANTS Schema,     \* sequence of [n, k, m]: the data columns
           AllowInsert,
           LateInitSel,\* BOOLEAN: the selection may be taken at any point of the body (else right after Begin)
           Keyed,      \* BOOLEAN: rows are created through InsertKey / UpsertKey (the schema has a key column)
+          Snap,       \* the actor taking one snapshot of P ("none": no snapshot)
+          Rst,        \* the actor restoring that snapshot into S at the end
           Rep,        \* the actor replaying on R
           ReplayAtEnd \* BOOLEAN: replay only once every writer is done (replays commute with the primary's steps)
 
@@ -59,6 +61,9 @@ StoreWith(L, H) ==
         !.seek = UNION {{<<data[n][o], o>> : o \in H[n]} : n \in kc},
         !.lastId = [i \in 1..(1 + MaxOf({BlockOf(o) : o \in Offsets})) |-> 0],
         !.tp = Transport]
+WithHistory(S) == IF ~History THEN S ELSE [S EXCEPT !.ap = [i \in 1..(1 + MaxOf({BlockOf(o) : o \in Offsets})) |-> <<BlockProj(S, i - 1)>>]]
+\* the collection the snapshot is restored into: same schema, nothing else
+Fresh == [StoreWith({}, [n \in ColNames |-> {}]) EXCEPT !.lastId = <<>>]
 
 HasChoices(L) ==
   CASE HasMode = "all"  -> {[n \in ColNames |-> L]}
@@ -67,7 +72,8 @@ HasChoices(L) ==
 
 MCInit ==
   /\ \E L \in {L \in LiveChoices : KeyOK(L)} : \E H \in HasChoices(L) :
-       st = [c \in Colls |-> IF c = "P" \/ (c = "R" /\ Replica) THEN StoreWith(L, H) ELSE EmptyStore]
+       st = [c \in Colls |-> IF c = "P" \/ (c = "R" /\ Replica) THEN WithHistory(StoreWith(L, H))
+                             ELSE IF c = "S" THEN Fresh ELSE EmptyStore]
   /\ txn = [t \in Actors |-> IdleTxn]
   /\ used = {} /\ files = EmptyFn /\ dev = {}
 
@@ -126,7 +132,22 @@ ReplayStep ==
      /\ i \in DOMAIN st["P"].strm
      /\ ReplayBegin(Rep, "R", st["P"].strm[i], i)
 
+\* one snapshot of P beside the writers; once it is complete it is restored into S
+SnapStep ==
+  /\ Snap # "none"
+  /\ \/ txn[Snap].pc = "idle" /\ SnapOpen(Snap, "P")
+     \/ SnapHeader(Snap) \/ SnapBlock(Snap) \/ SnapClose(Snap) \/ SnapCopy(Snap, "f")
+RestoreStep ==
+  /\ Snap # "none" /\ "f" \in DOMAIN files
+  /\ \/ txn[Rst].pc = "idle" /\ RestoreBegin(Rst, "S", "f", FALSE)
+     \/ /\ RestoreCanLoad(Rst)
+        /\ \E mode \in {"strict", "asbuilt"} :
+             RestoreApply(Rst, MinOf(RestoreLoaded(Rst).dirty), NextId, mode)
+     \/ txn[Rst].pc = "latched" /\ Unlatch(Rst)
+     \/ txn[Rst].pc = "restoring" /\ ~RestoreCanLoad(Rst) /\ RestoreEnd(Rst, FALSE)
+
 MCNext ==
+  \/ SnapStep \/ RestoreStep
   \/ \E t \in Writers : WriterStep(t) \/ CommitStep(t)
   \/ (Replica /\ (ReplayStep \/ CommitStep(Rep)))
 
@@ -141,6 +162,14 @@ Converged ==
       => (Excused({"D-replay-all-blocks", "D-swap-append", "D-dead-delete", "D-write-dead-row", "D-failed-insert-applied",
                    "D-enum-collision", "D-inflight-insert-visible"})
           \/ Project(st["R"]) = Project(st["P"])))
+
+\* C08: the restored collection's blocks each equal the primary's block after some prefix of the commits applied
+\* to that block: at least those applied before the snapshot call began, at most those applied when it returned
+ConsistentCut ==
+  (Snap # "none" /\ "f" \in DOMAIN files /\ txn[Rst].pc = "done") =>
+     (Excused({"D-inflight-insert-visible", "D-failed-insert-applied", "D-write-dead-row", "D-dead-delete", "D-swap-append"}) \/
+      \A i \in DOMAIN st["P"].ap :
+         \E k \in files["f"].lo[i]..files["f"].hi[i] : BlockProj(st["S"], i - 1) = st["P"].ap[i][k])
 
 \* C02: a transaction that ends without committing anything (error, or nothing buffered) leaves no trace:
 \* the collection is exactly as before except that the offsets it had reserved are free again
